@@ -153,6 +153,12 @@ func (c *Ctx) randomOp(valid map[int]string) string {
 	case 7:
 		return fmt.Sprintf("chk %d %s", l, hx([]byte(valid[li]+" x")))
 	case 8:
+		switch c.rng.Intn(4) {
+		case 0:
+			return fmt.Sprintf("seed %s %s", hx([]byte(valid[li])), hx([]byte("mnemonicTREZOR")))
+		case 1:
+			return fmt.Sprintf("seed %s %s", hx([]byte(valid[li]+"mnemonic")), hx([]byte("TREZOR")))
+		}
 		return fmt.Sprintf("seed %s %s", hx([]byte(valid[li])), hx([]byte(c.randUnicode(2))))
 	case 9:
 		return fmt.Sprintf("lstr %d", c.rng.Intn(14)-2)
